@@ -769,6 +769,38 @@ func runC10x(r *emit.Rand) {
 		}
 		oldTunnel.Close()
 	}
+	// an HTTP/1.0 client: an answer of unknown length (the origin streams it) is delimited by the end of the connection on a
+	// plain proxied connection; inside a tunnel it must be framed in a way an HTTP/1.0 client can read, too (not chunked)
+	{
+		raw10 := func(target string) []byte {
+			return []byte("GET " + target + " HTTP/1.0\r\nHost: " + env.Origin.Addr + "\r\n\r\n")
+		}
+		plainFraming, tunnelFraming := "?", "?"
+		if pc, err := env.DialPlain(5 * time.Second); err == nil {
+			pc.Send(raw10("http://"+env.Origin.Addr+"/http10/chunked-plain"), 5*time.Second)
+			if rp, err := pc.Read("GET", 6*time.Second); err == nil {
+				plainFraming = rp.Proto + " " + rp.Framing
+			} else {
+				plainFraming = "error: " + err.Error()
+			}
+			pc.Close()
+		}
+		if tc, _, err := env.DialTunnel(env.Origin.Addr, "127.0.0.1", 8*time.Second); err == nil {
+			tc.Send(raw10("/http10/chunked-tunnel"), 5*time.Second)
+			if rt, err := tc.Read("GET", 6*time.Second); err == nil {
+				tunnelFraming = rt.Proto + " " + rt.Framing
+			} else {
+				tunnelFraming = "error: " + err.Error()
+			}
+			tc.Close()
+		}
+		total++
+		dist["http10-in-tunnel-unknown-length"]++
+		if strings.Contains(tunnelFraming, "chunked") && !strings.Contains(plainFraming, "chunked") {
+			fail("http10-in-tunnel-unknown-length", map[string]any{"request": "GET ... HTTP/1.0, the origin streams the answer without a length", "plain_answer": plainFraming, "tunnel_answer": tunnelFraming},
+				"an HTTP/1.0 request inside a tunnel was answered with chunked framing (which HTTP/1.0 does not have) on a tunnel that stays open; on the plain connection the same answer is delimited by the close")
+		}
+	}
 	// the origin breaks off in the middle of a declared body: on a plain proxied connection the client learns it from the
 	// connection ending; inside a tunnel it must learn it the same way, not wait for bytes that will never come
 	for _, storable := range []bool{true, false} {
